@@ -209,6 +209,10 @@ func vfC01_Tunnel() {
 	} else {
 		vfAssume(n1 >= 1 && n1 <= 70000)
 	}
+	if path == 1 {
+		// the reader-from path re-reads its source in a loop: kept to one chunk's worth of data
+		vfAssume(n1 <= 3000 && n2 <= 3000)
+	}
 	b1, b2 := vfBytes("data1", n1), vfBytes("data2", n2)
 	wr, rd := sconn, cc
 	wt, rt := st, ct
